@@ -1,5 +1,6 @@
 """Sidecar contracts: the four C DTW kernels dtw_distance{,_ndim}{,_euclidean} (C02, C08, C20)."""
 from dvc.contracts import contract
+from contracts import gens
 import specs.dtw  # noqa: F401
 import specs.bounds  # noqa: F401
 
@@ -119,6 +120,7 @@ def kernel(name, metric, nd):
         theories=('dtw', 'bounds', 'floatzero'),
         lemmas=['RowAllInf', 'RowLeadInf', 'FoldMinIsMin'],
         order_axioms=True,
+        replay=gens.gen_kernel(metric, nd),
         props=('C02', 'C08', 'C11', 'C20'),
     )
 
